@@ -91,6 +91,7 @@ EnvTable == [spec |-> "JsSemEnvs", q |-> Q, grid |-> EnvGrid,
              rows |-> [n \in 1..(Q * Q) |-> RowIdx((n - 1) \div Q, (n - 1) % Q)],
              objs |-> [id \in ObjIds |-> ObjDef(id)], maxcalls |-> MaxCalls]
 ASSUME Emit => PrintT(<<"CASE", ToJson(EnvTable)>>)
+ASSUME (Emit /\ DoOpt) => PrintT(<<"CASE", ToJson([spec |-> "JsSemNames", cases |-> NameProgs])>>)
 
 (* ---- properties of the model ---- *)
 (* evaluation is total and deterministic: Run is a function of (program, environment), every
